@@ -349,6 +349,10 @@ namespace Dune {
           I lower = I(val); // now |val-lower| < 1
           // make sure we're really lower in case the cast truncated to an unexpected direction
           if(T(lower) > val) lower--; // now val-lower < 1
+          // val is an integer: nothing to truncate.  (Without this test an integer val was moved to
+          // val+1 whenever val+1 compares equal to val: epsilon*|val| >= 1 for the relative styles,
+          // or T(lower+1) == val because lower+1 is not representable in T)
+          if(T(lower) == val) return lower;
           // check whether lower + 1 is approximately val
           if(eq<T, cstyle>(T(lower+1), val, epsilon))
             return lower+1;
